@@ -203,6 +203,12 @@ Definition init (n : nat) (a : Z) : st :=
   mkSt (boot_workers n [0]) (Z.of_nat n) (Z.of_nat n) [] 0 (Z.of_nat n) a [0] PSigq (boot_kids n) (100 + Z.of_nat n) 1 1
        (Z.of_nat n) a [] 0.
 
+(* the same pool after TTIN / TTOU have resized it to n workers while the configuration (file and Config object) says k:
+   num_workers = n, cfg.workers = k *)
+Definition init_resized (n : nat) (k a : Z) : st :=
+  mkSt (boot_workers n [0]) (Z.of_nat n) (Z.of_nat n) [] 0 k a [0] PSigq (boot_kids n) (100 + Z.of_nat n) 1 1
+       k a [] 0.
+
 (* ---- observation (mirrors props/c10.py) -------------------------------------------------------------------------------------- *)
 Definition b2z (b : bool) : Z := if b then 1 else 0.
 Definition pc_code (s : st) : list Z :=
